@@ -11,5 +11,7 @@ def run(ctx):
     r = ctx.model_check("Resolver/SearchModel.tla", "SearchModel.cfg", workers=4, timeout=300)
     if r.violation:
         raise vlib.MachineryError("SearchModel.tla violates %s" % r.violation)
-    gens = [{"module": "Gen_C12.tla", "cfg": "Gen_C12_quick.cfg" if ctx.quick else "Gen_C12_thorough.cfg", "name": "bfs"}]
+    gens = [{"module": "Gen_C12.tla", "cfg": "Gen_C12_quick.cfg" if ctx.quick else "Gen_C12_thorough.cfg", "name": "bfs"},
+            # environment overrides (LOCALDOMAIN, RES_OPTIONS) and alias-only answers, on a smaller name/domain box
+            {"module": "Gen_C12.tla", "cfg": "Gen_C12_env.cfg", "name": "env"}]
     simlib.engine_check(ctx, gens, FACETS, labels=("c12.",), selftests=mutators.SEARCH)
